@@ -1,4 +1,5 @@
 import SnaxVerif.Lemmas.SetupVals
+import SnaxVerif.Lemmas.SetupValsPhs
 /-!
 # C08 — generated configuration values line up with field names
 
@@ -74,32 +75,114 @@ example : regionAccepts [oneDim] { pats := [{ dims := [(1, 0), (16, 8)], ss := [
     (addrStream [(4, 32), (4, 128)]).length = 16 ∧
     regionAccepts [oneDim] { pats := [{ dims := [(16, 8)], ss := [8] }], zero := [false] } = true := by decide
 
-/-! ## snax_alu — alignment full; loop count partial (D82) -/
+/-- an environment that separates `dim` leaves from constants (used by the counterexamples) -/
+def envDim5 : Env := fun l => match l with | .dim _ => 5#32 | _ => 0#32
 
-theorem aligned_alu (cfg : List Streamer) (op : StreamOp) (vs : List Val)
-    (h : aluVals cfg op = .ok vs) : AlignedAt (aluMeaning cfg op) (aluFields cfg) vs :=
-  (aluVals_aligned cfg op vs h).index
+/-! ## snax_alu — full on the repaired tree (FC08c); the unrepaired loop bound is D82 -/
+
+/-- full statement: every ALU register, INCLUDING `loop_bound_alu` = the number of temporal steps of stream 0 -/
+def aligned_alu_statement (v : Variant) : Prop :=
+  ∀ (cfg : List Streamer) (op : StreamOp) (vs : List Val), aluVals v cfg op = .ok vs →
+    AlignedAt (aluMeaning cfg op) (aluFields cfg) vs
+
+/-- With FC08c (`loop_bound_alu` = product of all upper bounds): full, for every configuration, pattern, operand list. -/
+theorem aligned_alu : aligned_alu_statement .fixed := by
+  intro cfg op vs h
+  exact (aluVals_aligned .fixed cfg op vs h (Or.inl rfl)).index
+
+/-- Any tree: clause `hsingle` — the repair is in, or stream 0 has exactly one temporal loop. -/
+theorem aligned_alu_partial (v : Variant) (cfg : List Streamer) (op : StreamOp) (vs : List Val)
+    (h : aluVals v cfg op = .ok vs)
+    (hsingle : v.loopAllDims = true ∨ ∀ p, op.pats[0]? = some p → p.dims.length = 1) :
+    AlignedAt (aluMeaning cfg op) (aluFields cfg) vs :=
+  (aluVals_aligned v cfg op vs h hsingle).index
+
+/-- D82 (tree without FC08c): two temporal loops `ub = [2, 3]`, `loop_bound_alu` receives 2, the stream makes 6 steps. -/
+theorem aligned_alu_unrepaired_fails : ¬ aligned_alu_statement .repo := by
+  intro h
+  have hv : ∃ vs, aluVals .repo [{ tdims := [.n, .n], sdims := [4], opts := [] }]
+      { pats := [{ dims := [(2, 8), (3, 16)], ss := [8] }], zero := [false] } = .ok vs ∧ vs[8]? = some (.c 2) :=
+    ⟨_, rfl, by decide⟩
+  obtain ⟨vs, hvs, h8⟩ := hv
+  obtain ⟨v, hv, hm⟩ := (h _ _ vs hvs).2 8 .loopBoundAlu (by decide)
+  rw [h8] at hv; injection hv with hv; subst hv
+  simp [aluMeaning, prodI] at hm
+  have := congrFun hm envDim5
+  simp [Val.den, konst] at this
 
 /-- full statement: the ALU loop count equals the number of steps of stream 0 -/
-def loopcount_alu_statement : Prop :=
-  ∀ (op : StreamOp) (lb : Int) (p : Pattern), firstBound op = .ok lb → op.pats[0]? = some p →
+def loopcount_alu_statement (v : Variant) : Prop :=
+  ∀ (op : StreamOp) (lb : Int) (p : Pattern), firstBound v op = .ok lb → op.pats[0]? = some p →
     lb = prodI (p.dims.map (·.1))
 
-/-- clause `hsingle`: stream 0 has exactly one temporal dimension -/
-theorem loopcount_alu_partial (op : StreamOp) (lb : Int) (p : Pattern) (h : firstBound op = .ok lb)
-    (hp : op.pats[0]? = some p) (hsingle : p.dims.length = 1) : lb = prodI (p.dims.map (·.1)) := by
-  unfold firstBound at h
-  match hd : p.dims with
-  | [d] => simp [hp, hd] at h; subst h; simp [prodI]
-  | [] => simp [hd] at hsingle
-  | _ :: _ :: _ => simp [hd] at hsingle
+/-- with FC08c: full -/
+theorem loopcount_alu : loopcount_alu_statement .fixed :=
+  fun op lb p h hp => firstBound_steps .fixed op lb p h hp (Or.inl rfl)
+
+/-- clause `hsingle`: stream 0 has exactly one temporal dimension (any tree) -/
+theorem loopcount_alu_partial (v : Variant) (op : StreamOp) (lb : Int) (p : Pattern) (h : firstBound v op = .ok lb)
+    (hp : op.pats[0]? = some p) (hsingle : p.dims.length = 1) : lb = prodI (p.dims.map (·.1)) :=
+  firstBound_steps v op lb p h hp (Or.inr hsingle)
 
 /-- D82: with two temporal dimensions `loop_bound_alu` is the first bound only. -/
-theorem loopcount_alu_fails : ¬ loopcount_alu_statement := by
+theorem loopcount_alu_fails : ¬ loopcount_alu_statement .repo := by
   intro h
   have := h { pats := [{ dims := [(2, 8), (3, 16)], ss := [8] }], zero := [false] } 2
     { dims := [(2, 8), (3, 16)], ss := [8] } rfl rfl
   simp [prodI] at this
+
+/-! ## snax_alu, legacy linalg path — a table written for the default configuration (DC08a otherwise) -/
+
+def aligned_alu_linalg_statement : Prop :=
+  ∀ cfg : List Streamer, AlignedAt aluLinalgMeaning (aluFields cfg) aluLinalgVals
+
+/-- clause `hdefault`: the accelerator has the default streamer configuration -/
+theorem aligned_alu_linalg_partial (cfg : List Streamer) (hdefault : cfg = aluDefault) :
+    AlignedAt aluLinalgMeaning (aluFields cfg) aluLinalgVals := by
+  subst hdefault
+  exact Aligned.index (m := aluLinalgMeaning)
+    (by simp [Aligned, aluLinalgMeaning, aluLinalgVals, aluFields, aluDefault, streamerFields, streamerBlockFields,
+          transposeField, bcastField, Streamer.has, List.zipIdx, List.range, List.range.loop]
+        refine ⟨?_, ?_, ?_, ?_, ?_, ?_, ?_, ?_, ?_, ?_, ?_, ?_, ?_, ?_, ?_, ?_, ?_⟩ <;> rfl)
+
+/-- DC08a: a configurable ALU with two temporal dimensions per streamer declares 20 fields, the legacy path still
+emits its 17 values. -/
+theorem alu_linalg_other_config_fails : ¬ aligned_alu_linalg_statement := by
+  intro h
+  have := (h [ { tdims := [.n, .n], sdims := [4], opts := [] }, { tdims := [.n, .n], sdims := [4], opts := [] },
+               { tdims := [.n, .n], sdims := [4], opts := [] } ]).1
+  revert this
+  decide
+
+/-! ## snax_phs — streamer registers, one `phs_switch_i` per true switch of the processing element, loop bound -/
+
+def aligned_phs_statement (v : Variant) : Prop :=
+  ∀ (cfg : List Streamer) (op : StreamOp) (A : Phs.PE) (K : Except Phs.Err Phs.PE) (vs : List Val),
+    A.wf = true → phsVals v cfg op A K = .ok vs →
+    ∃ k sw, K = .ok k ∧ Phs.decode A k = .ok sw ∧ AlignedAt (phsMeaning cfg op sw) (phsFields cfg A) vs
+
+/-- Repaired tree (FC08c), for EVERY streamer configuration, pattern / operand list, processing element `A`
+satisfying the IR invariants `PE.wf` (C20) and kernel `K`: when the generator returns, the kernel was encoded and
+decoded, and the streamer registers, the `phs_switch_i` registers (exactly `get_true_switches()` of them — the
+count that used to be an assumption is `decode_length`, proved from the decoder model) and `loop_bound_alu` (=
+temporal steps of stream 0) line up with the values. -/
+theorem aligned_phs : aligned_phs_statement .fixed := by
+  intro cfg op A K vs hA h
+  obtain ⟨k, sw, hk, hd, hal⟩ := phsVals_aligned .fixed cfg op A K vs h hA (Or.inl rfl)
+  exact ⟨k, sw, hk, hd, hal.index⟩
+
+/-- any tree: clause `hsingle` as for snax_alu (D82: the same expression is in snax_phs.py) -/
+theorem aligned_phs_partial (v : Variant) (cfg : List Streamer) (op : StreamOp) (A : Phs.PE)
+    (K : Except Phs.Err Phs.PE) (vs : List Val) (hA : A.wf = true) (h : phsVals v cfg op A K = .ok vs)
+    (hsingle : v.loopAllDims = true ∨ ∀ p, op.pats[0]? = some p → p.dims.length = 1) :
+    ∃ k sw, K = .ok k ∧ Phs.decode A k = .ok sw ∧ AlignedAt (phsMeaning cfg op sw) (phsFields cfg A) vs := by
+  obtain ⟨k, sw, hk, hd, hal⟩ := phsVals_aligned v cfg op A K vs h hA hsingle
+  exact ⟨k, sw, hk, hd, hal.index⟩
+
+/-- the number of switch values is the number of `phs_switch_i` fields, for every well-formed element -/
+theorem phs_switch_count (A K : Phs.PE) (sw : List Nat) (hA : A.wf = true) (h : Phs.decode A K = .ok sw) :
+    (switchVals sw).length = ((List.range A.trueSwitches).map Field.phsSwitch).length := by
+  simp [switchVals, decode_length A K sw hA h]
 
 /-! ## snax_gemmx -/
 
@@ -118,9 +201,10 @@ theorem aligned_gemmx_partial (v : Variant) (cfg : List Streamer) (n : Nat) (op 
   obtain ⟨P, hP, hal⟩ := gemmxVals_aligned v cfg n op vs h
   exact ⟨P, hP, fun hc => (hal hc.1 hc.2).index⟩
 
-/-- The count clause holds on the repaired tree (F11) for every geometry `n`, every configuration and every
-pattern, for the rescale-only kernel and for mac/qmac with i32 output. -/
-theorem gemmx_counts_fixed (n : Nat) (op : GemmxOp) (P : GParams) (h : gemmxParams .fixed n op = .ok P)
+/-- The count clause holds with F11 for every geometry `n`, every configuration and every pattern, for the
+rescale-only kernel and for mac/qmac with i32 output. -/
+theorem gemmx_counts_fixed (v : Variant) (hv : v.f11 = true) (n : Nat) (op : GemmxOp) (P : GParams)
+    (h : gemmxParams v n op = .ok P)
     (hk : (∃ r, op.kernel = .rescale r) ∨ op.i8out = false) :
     P.shifts.length = ceil4 n ∧ P.mults.length = n := by
   unfold gemmxParams at h
@@ -129,7 +213,7 @@ theorem gemmx_counts_fixed (n : Nat) (op : GemmxOp) (P : GParams) (h : gemmxPara
     split at h
     · simp at h
     · split at h
-      · injection h with h; subst h; simp
+      · injection h with h; subst h; simp [hv]
       · simp at h
   · split at h
     · simp only [hi] at h
@@ -143,7 +227,7 @@ theorem gemmx_counts_fixed (n : Nat) (op : GemmxOp) (P : GParams) (h : gemmxPara
     · split at h
       · simp at h
       · split at h
-        · injection h with h; subst h; simp
+        · injection h with h; subst h; simp [hv]
         · simp at h
     · simp at h
 
@@ -156,6 +240,28 @@ theorem gemmx_counts_i8 (v : Variant) (n : Nat) (op : GemmxOp) (P : GParams) (zp
       (r.mults.length = 1 ∨ n ≤ r.mults.length)) :
     P.shifts.length = ceil4 n ∧ P.mults.length = n :=
   SV.gemmx_counts_i8 v n op P zp hk hi h hchan
+
+/-- `hcount` discharged: with F11, for every configuration, geometry `n`, pattern list, operand list and region
+body the generator accepts (mac, qmac, any chain of generics, rescale only; i8 and i32 outputs), every register —
+streamer part and K, N, M, subtractions, csr0, csr1, shift_i, mult_i, temporal_loop_bound, bypassSIMD — lines up
+with its name. The only clause left is `hchan` (per-channel arrays of a trailing rescale are per-tensor or cover the
+n columns; D81 is its counterexample). -/
+theorem aligned_gemmx (v : Variant) (hv : v.f11 = true) (cfg : List Streamer) (n : Nat) (op : GemmxOp)
+    (vs : List Val) (h : gemmxVals v cfg n op = .ok vs)
+    (hchan : ∀ r, op.post = some r → (r.shifts.length = 1 ∨ n ≤ r.shifts.length) ∧
+      (r.mults.length = 1 ∨ n ≤ r.mults.length)) :
+    ∃ P, gemmxParams v n op = .ok P ∧ AlignedAt (gemmxMeaning cfg op.s P) (gemmxFields cfg n) vs := by
+  obtain ⟨P, hP, hal⟩ := aligned_gemmx_partial v cfg n op vs h
+  refine ⟨P, hP, hal ?_⟩
+  cases hk : op.kernel with
+  | mac zp =>
+    cases hi : op.i8out with
+    | true => exact SV.gemmx_counts_i8 v n op P zp hk hi hP hchan
+    | false => exact gemmx_counts_fixed v hv n op P hP (Or.inr hi)
+  | rescale r => exact gemmx_counts_fixed v hv n op P hP (Or.inl ⟨r, hk⟩)
+  | other =>
+    unfold gemmxParams at hP
+    simp [hk] at hP
 
 /-- What the mac/qmac kernel registers carry, for every region shape: `M` = number of non-reduction steps of the
 output stream (operand 2 for i8, the last operand for i32), `N = 1`, `K = steps(A) // M`; with i8 output csr0/csr1,
@@ -172,8 +278,21 @@ theorem gemmx_mac_params (v : Variant) (n : Nat) (op : GemmxOp) (P : GParams) (z
         P.csr0 = csr0Val (effRescale n op).minI (effRescale n op).maxI (effRescale n op).outZp (effRescale n op).inZp) := by
   obtain ⟨last, p0, h1, h2, h3, _, h5, h6, h7⟩ := gemmxParams_mac_inv v n op P zp hk h
   refine ⟨last, p0, h1, h2, h3, h5, h6, fun hi => ?_⟩
-  obtain ⟨_, _, _, hm, ht, hb, hc1, hc0⟩ := h7 hi
+  obtain ⟨_, _, _, hm, ht, hb, hc1, hc0, _⟩ := h7 hi
   exact ⟨hm, ht, hb, hc1, hc0⟩
+
+/-- Channel-wise requantisation with more channels than columns loses nothing: whenever the trailing rescale has
+more than `n` multipliers, the complete multiplier array as written and `M` are attached to the launch (the
+registers carry the first `n` channels, `gemmx_mac_params`). -/
+theorem gemmx_channels_not_lost (v : Variant) (n : Nat) (op : GemmxOp) (P : GParams) (zp : Option (Nat × Nat))
+    (hk : op.kernel = .mac zp) (hi : op.i8out = true) (h : gemmxParams v n op = .ok P) (r : Rescale)
+    (hr : op.post = some r) (hlong : n < (bcastN n r.mults).length) :
+    ("mult_vals", r.mults) ∈ P.attrs ∧ ("m", [P.m]) ∈ P.attrs := by
+  obtain ⟨_, _, _, _, _, _, _, _, h7⟩ := gemmxParams_mac_inv v n op P zp hk h
+  obtain ⟨sh, _, _, _, _, _, _, _, hat⟩ := h7 hi
+  have he : (effRescale n op).mults = bcastN n r.mults := by simp [effRescale, hr]
+  rw [hat, he]
+  simp [launchAttrs, hr, hlong]
 
 /-- full statement: the kernel loop counts multiply to the number of temporal steps of stream A -/
 def loopcount_gemmx_statement : Prop :=
@@ -267,7 +386,6 @@ theorem aligned_hwpe_partial (i : Nat) (f : Field) (hf : hwpeFields[i]? = some f
   | 5 => simp [hwpeFields] at hf; subst hf; exact ⟨_, rfl, rfl⟩
   | (k + 6) => simp [hwpeFields] at hf
 
-def envDim5 : Env := fun l => match l with | .dim _ => 5#32 | _ => 0#32
 
 /-- D10: `vector_length` receives the constant 1 (the value computed for `nr_iters`). -/
 theorem hwpe_fails : ¬ hwpe_statement := by
@@ -285,19 +403,28 @@ theorem hwpe_values_follow_docstring_order :
     AlignedAt hwpeMeaning [.hA, .hB, .hO, .nrIters, .vectorLength, .mode] hwpeVals :=
   Aligned.index (m := hwpeMeaning) (by simp [Aligned, hwpeMeaning, hwpeVals]; exact ⟨rfl, rfl, rfl, rfl, rfl, rfl⟩)
 
-/-! ## snax_xdma — partial (clauses `hzero`, `hgen`), with counterexamples for the pristine field list (D12) and for
-each dropped clause (D80, D83) -/
+/-! ## snax_xdma — full on the repaired tree (F14, FC08a, FC08b); each unrepaired site has its counterexample -/
 
 def aligned_xdma_statement (v : Variant) : Prop :=
-  ∀ (cfg : List Streamer) (op : XdmaOp) (vs : List Val), xdmaVals cfg op = .ok vs →
+  ∀ (cfg : List Streamer) (op : XdmaOp) (vs : List Val), xdmaVals v cfg op = .ok vs →
     AlignedAt (xdmaMeaning cfg op) (xdmaFields v cfg) vs
 
-/-- On the repaired tree (F14), for every configuration, pattern and kernel: clause `hzero` — all operands have
-the same zero-pointer flag (D80 otherwise); clause `hgen` — the body starts with a `dart.generic` (D83 otherwise). -/
-theorem aligned_xdma_partial (cfg : List Streamer) (op : XdmaOp) (vs : List Val) (h : xdmaVals cfg op = .ok vs)
-    (b : Bool) (hzero : ∀ s, s < cfg.length → op.s.zero[s]? = some b) (hgen : op.kernel ≠ .notGeneric) :
-    AlignedAt (xdmaMeaning cfg op) (xdmaFields .fixed cfg) vs :=
-  (xdmaVals_aligned cfg op vs h b hzero hgen).index
+/-- Repaired tree: for EVERY configuration (any number of streamers, any option / extension list in any order, with
+duplicates), pattern, operand list (zero pointers anywhere) and body (add, rescale up/down, other kernels, no
+generic at all): base pointers, strides, bounds, `enabled_chan`, `enabled_byte`, the bypass bit set and every
+extension CSR line up with their names. -/
+theorem aligned_xdma : aligned_xdma_statement .fixed := by
+  intro cfg op vs h
+  exact (xdmaVals_aligned .fixed cfg op vs h rfl (Or.inl rfl) (Or.inl rfl)).index
+
+/-- Any tree with F14: clause `hzero` — FC08a is in, or all operands have the same zero-pointer flag (D80 otherwise);
+clause `hgen` — FC08b is in, or the body starts with a `dart.generic` (D83 otherwise). -/
+theorem aligned_xdma_partial (v : Variant) (cfg : List Streamer) (op : XdmaOp) (vs : List Val)
+    (h : xdmaVals v cfg op = .ok vs) (h14 : v.f14 = true)
+    (hzero : v.zeroPerOperand = true ∨ ∃ b, ∀ s, s < cfg.length → op.s.zero[s]? = some b)
+    (hgen : v.extCsrLen = true ∨ op.kernel ≠ .notGeneric) :
+    AlignedAt (xdmaMeaning cfg op) (xdmaFields v cfg) vs :=
+  (xdmaVals_aligned v cfg op vs h h14 hzero hgen).index
 
 def xdmaPlain : List Streamer :=
   [ { tdims := [.n], sdims := [8], opts := [.ext .add] }, { tdims := [.n], sdims := [8], opts := [] } ]
@@ -309,24 +436,25 @@ def xdmaPlainOp (k : XKernel) (z : List Bool) : XdmaOp :=
 /-- D12 (pristine tree): `_enabled_chan` is declared for streamers without a channel mask: 15 fields, 13 values. -/
 theorem xdma_pristine_enabled_chan_fails : ¬ aligned_xdma_statement .pristine := by
   intro h
-  have hv : ∃ vs, xdmaVals xdmaPlain (xdmaPlainOp .add [false, false]) = .ok vs ∧ vs.length = 13 :=
+  have hv : ∃ vs, xdmaVals .pristine xdmaPlain (xdmaPlainOp .add [false, false]) = .ok vs ∧ vs.length = 13 :=
     ⟨_, rfl, by decide⟩
   obtain ⟨vs, hvs, hlen⟩ := hv
   have := (h xdmaPlain (xdmaPlainOp .add [false, false]) vs hvs).1
   have hf : (xdmaFields .pristine xdmaPlain).length = 15 := by decide
   omega
 
-example : ∃ vs, xdmaVals xdmaPlain (xdmaPlainOp .add [false, false]) = .ok vs ∧ vs.length = 13 ∧
+example : ∃ vs, xdmaVals .fixed xdmaPlain (xdmaPlainOp .add [false, false]) = .ok vs ∧ vs.length = 13 ∧
     (xdmaFields .fixed xdmaPlain).length = 13 := ⟨_, rfl, by decide, by decide⟩
 
 def xdmaMasked : List Streamer :=
   [ { tdims := [.n], sdims := [8], opts := [.chan] }, { tdims := [.n], sdims := [8], opts := [.chan] } ]
 
-/-- D80: `is_zero_pattern` leaks from the first loop: the reader is a zero pointer, the writer is not, and the
-reader's `a_enabled_chan` (position 7) receives -1 (all channels enabled) instead of 0. -/
-theorem xdma_zero_flag_leak_fails : ¬ aligned_xdma_statement .fixed := by
+/-- D80 (every repair except FC08a): `is_zero_pattern` leaks from the first loop: the reader is a zero pointer, the
+writer is not, and the reader's `a_enabled_chan` (position 7) receives -1 (all channels enabled) instead of 0. -/
+theorem xdma_zero_flag_leak_fails : ¬ aligned_xdma_statement { Variant.fixed with zeroPerOperand := false } := by
   intro h
-  have hv : ∃ vs, xdmaVals xdmaMasked (xdmaPlainOp .other [true, false]) = .ok vs ∧ vs[7]? = some (.c (-1)) :=
+  have hv : ∃ vs, xdmaVals { Variant.fixed with zeroPerOperand := false } xdmaMasked
+      (xdmaPlainOp .other [true, false]) = .ok vs ∧ vs[7]? = some (.c (-1)) :=
     ⟨_, rfl, by decide⟩
   obtain ⟨vs, hvs, h7⟩ := hv
   obtain ⟨v, hv, hm⟩ := (h xdmaMasked (xdmaPlainOp .other [true, false]) vs hvs).2 7 (.enabledChan 0) (by decide)
@@ -335,25 +463,33 @@ theorem xdma_zero_flag_leak_fails : ¬ aligned_xdma_statement .fixed := by
   have := congrFun hm envDim5
   simp [Val.den, konst] at this
 
+/-- the same operation with FC08a: the reader's mask is 0 -/
+example : ∃ vs, xdmaVals .fixed xdmaMasked (xdmaPlainOp .other [true, false]) = .ok vs ∧ vs[7]? = some (.c 0) ∧
+    vs[12]? = some (.c (-1)) := ⟨_, rfl, by decide⟩
+
 def xdmaRescale : List Streamer :=
   [ { tdims := [.n], sdims := [8], opts := [.ext .rescaleDown] }, { tdims := [.n], sdims := [8], opts := [] } ]
 
-/-- D83: a body that does not start with `dart.generic` yields one value per extension instead of
-`csr_length` (rescale: 4): 13 values for 16 fields. -/
-theorem xdma_nongeneric_fails : ¬ aligned_xdma_statement .fixed := by
+/-- D83 (every repair except FC08b): a body that does not start with `dart.generic` yields one value per extension
+instead of `csr_length` (rescale: 4): 13 values for 16 fields. -/
+theorem xdma_nongeneric_fails : ¬ aligned_xdma_statement { Variant.fixed with extCsrLen := false } := by
   intro h
-  have hv : ∃ vs, xdmaVals xdmaRescale (xdmaPlainOp .notGeneric [false, false]) = .ok vs ∧ vs.length = 13 :=
+  have hv : ∃ vs, xdmaVals { Variant.fixed with extCsrLen := false } xdmaRescale
+      (xdmaPlainOp .notGeneric [false, false]) = .ok vs ∧ vs.length = 13 :=
     ⟨_, rfl, by decide⟩
   obtain ⟨vs, hvs, hlen⟩ := hv
   have := (h xdmaRescale (xdmaPlainOp .notGeneric [false, false]) vs hvs).1
-  have hf : (xdmaFields .fixed xdmaRescale).length = 16 := by decide
+  have hf : (xdmaFields { Variant.fixed with extCsrLen := false } xdmaRescale).length = 16 := by decide
   omega
+
+example : ∃ vs, xdmaVals .fixed xdmaRescale (xdmaPlainOp .notGeneric [false, false]) = .ok vs ∧ vs.length = 16 :=
+  ⟨_, rfl, by decide⟩
 
 /-! ## non-vacuity -/
 
 /-- a 2-streamer configuration with padding (pattern shorter than the streamer), a collapsed reuse dimension,
 a zero pointer, broadcast and every option: the generator answers and the theorem applies -/
-example : ∃ vs, aluVals
+example : ∃ vs, aluVals .fixed
     [ { tdims := [.r, .n, .i], sdims := [8, 4], opts := [.bcast, .chan, .remap, .ext .transpose] },
       { tdims := [.n], sdims := [4], opts := [] } ]
     { pats := [ { dims := [(5, 0), (3, 16)], ss := [0, 8] }, { dims := [(7, 32)], ss := [8] } ],
